@@ -300,13 +300,17 @@ def r3_filters_narrow(run):
     run.require(len(inner) == 1, "filter_on_attributes: helper vanished")
     wr = []
     for s in ast.walk(inner[0]):
-        if isinstance(s, ast.Assign) and unparse(s.targets[0]).startswith("res["):
-            wr.append(s.value)
-        if isinstance(s, ast.Call) and attr_chain(s.func) == "res[].extend":
-            wr.append(s.args[0])
+        if isinstance(s, ast.Assign) and unparse(s.targets[0]).startswith("res[") \
+                and isinstance(s.targets[0], ast.Subscript):
+            wr.append((unparse(s.targets[0].slice), s.value))
+        if isinstance(s, ast.Call) and attr_chain(s.func) == "res[].extend" and \
+                isinstance(s.func.value, ast.Subscript):
+            wr.append((unparse(s.func.value.slice), s.args[0]))
+    # what is stored under a key are the subject's own values for that very key
     ok = len(wr) >= 2 and all(
         isinstance(w, ast.Call) and call_name(w) == "_filter_values" and
-        unparse(w.args[0]) == "ava[_fn]" for w in wr)
+        unparse(w.args[0]) == "ava[%s]" % k for k, w in wr)
+    wr = [w for k, w in wr]
     run.check(ok, "R3", fa.qual + "::writes",
               "res is filled only with _filter_values(ava[_fn], ...)",
               "res written from %s" % [unparse(w) for w in wr], fa.loc(inner[0]))
